@@ -734,7 +734,8 @@ def run_c15(ctx, chk):
         label = r.label
         # R-KILL: every field except savepoints / lines / columns is overwritten
         for fld in ('margins', 'mode', 'title', 'icon_name', 'charset', 'g0_charset', 'g1_charset', 'cursor', 'saved_columns'):
-            if (fld,) not in wr:
+            if (fld,) not in wr and not (fld == 'mode' and 'mode' in cleared):
+                # (the mode set may be emptied and refilled instead of replaced; what it then holds is R-DEP)
                 bad.append('[%s] %s is not re-initialised' % (label, fld))
         for fld in ('buffer', 'dirty', 'tabstops'):
             if fld not in cleared and (fld,) not in wr:
